@@ -38,6 +38,7 @@ class Check:
         self.violations = []       # (clause, replay path)
         self.known_hits = []
         self.drift = []
+        self.inconclusive = []
         self.live_clauses = {}
         self.rules = []
         self.assumptions = []
@@ -65,6 +66,10 @@ class Check:
         self.traces += len(traces)
         self.trace_states += stats["distinct"]
         by_id = {t["id"]: t for t in traces}
+        for tid, why in stats.get("inconclusive", []):
+            self.inconclusive.append({"trace": tid, "module": module, "why": why[:120], "input": (inputs or {}).get(tid)})
+            print("NOTE inconclusive: TLC ran out of time/memory on trace %s (%s); no verdict for it" % (tid, module))
+        self.traces -= len(stats.get("inconclusive", []))
         for tid, v in verdicts.items():
             self.evaluations += 1
             for c in v["live"]:
@@ -124,6 +129,7 @@ class Check:
             "live_clause_counts": self.live_clauses,
             "spec_drift": {"count": len(self.drift), "samples": self.drift[:5]},
             "known_findings_hit": self.known_hits,
+            "inconclusive_traces": self.inconclusive[:10],
             "exhaustive": bool(self.exhaustive_parts),
             "exhaustive_parts": self.exhaustive_parts,
             "tlc": "TLC2 (tla2tools 1.8.0), CommunityModules; traces validated by TLC, not by Python",
